@@ -100,6 +100,15 @@ def replay(ctx, path):
         print("model agrees with the stored implementation output; oracle accepts it"); return 0
     for (_, agree, okk) in failing:
         print("model == implementation:", agree, "| specification oracle accepts implementation output:", okk)
+    # which probes differ: (probe index, raw outcome (1 exit / 2 tail call / 3 error, value, pol_rc), reference, model)
+    import os, subprocess
+    vf = os.path.join(ctx.build, "replay_explain.v")
+    with open(vf, "w") as f:
+        f.write("From Coq Require Import List NArith ZArith String.\nImport ListNotations.\n" + "\n".join(CFG["imports"]) + "\n")
+        f.write("Definition the_case := %s.\nEval vm_compute in explain_case the_case.\n" % c["coq"])
+    ok, out = vlib.coqc(vf)
+    print("failing probes (index, (outcome kind, value, pol_rc), reference verdict, model verdict):")
+    print(out[-3000:])
     return 1
 
 
